@@ -107,6 +107,20 @@ class Builder:
             self.libs[key] = info
         return info
 
+    def plain(self, src, lib, out, wrap_ld=False, asan=False):
+        """compile a plain program (no harness kit, no hook runtime API): optionally linked against the
+        ld-wrap library archive of `lib` (which carries the hook runtime the library itself calls)"""
+        exe = os.path.join(lib["dir"], out)
+        vflags = VARIANT_FLAGS[lib["variant"]] if (wrap_ld or asan) else ["-O1", "-g"]
+        cmd = ["gcc"] + vflags + ["-D_GNU_SOURCE", os.path.join(VERIF, "harness", src)]
+        if wrap_ld:
+            cmd += ["@" + os.path.join(SRC, "myth-ld.opts"), lib["archive"]]
+        cmd += ["-lpthread", "-ldl", "-lrt", "-o", exe]
+        r = sh(cmd)
+        if r.returncode != 0:
+            raise HarnessError("plain compile failed: %s\n%s" % (" ".join(cmd), r.stdout[-4000:]))
+        return exe
+
     def harness(self, src, lib, out=None, extra=(), cxx=False, link_lib=True, extra_src=()):
         """compile harness/<src> against a library build -> path of executable"""
         out = out or os.path.splitext(os.path.basename(src))[0]
